@@ -45,38 +45,39 @@ mod v_iface_frag {
     }
 
     // ------------------------------------------------------------------ any order, duplicates, consistent overlap
-    // Ghost datagram of T bytes (24 < T <= 32): fragments A=[0,8) B=[8,16) C=[16,24) D=[24,T) (last, MF clear) and the
-    // consistent overlapping retransmission E=[8,24).  N symbolic picks.
-    macro_rules! any_order {
-        ($t:expr, $($step:ident),+) => {{
-            const T: usize = $t;
-            let g: [u8; 32] = kani::any();
-            let key: Key = kani::any();
-            let exp = Instant::from_millis(60_000);
-            let mut set = PacketAssemblerSet::<Key>::new();
-            let mut mask = 0u8;
-            let mut over = false;
-            let mut delivered = 0usize;
-            let mut ooo = false;
-            let mut overlap = false;
-            let mut late_total = false;
-            $(
-                let $step: u8 = kani::any();
-                kani::assume($step < 5);
-                crate::vdump!("pick {}", $step);
-                let bits: u8 = match $step { 0 => 1, 1 => 2, 2 => 4, 3 => 8, _ => 6 };
+    // Ghost datagram of T bytes (24 < T <= 32): fragments A=[0,8) B=[8,16) C=[16,24) D=[24,T) (last, MF clear) and,
+    // if WITH_E, the consistent overlapping retransmission E=[8,24).  5 symbolic picks.
+    // (Copies have concrete lengths: one `offer` call site per fragment length.)
+    fn any_order<const T: usize, const WITH_E: bool>() {
+        let g: [u8; 32] = kani::any();
+        let key: Key = kani::any();
+        let exp = Instant::from_millis(60_000);
+        let mut set = PacketAssemblerSet::<Key>::new();
+        let mut mask = 0u8;
+        let mut over = false;
+        let mut delivered = 0usize;
+        let mut ooo = false;
+        let mut overlap = false;
+        let mut late_total = false;
+        macro_rules! step {
+            () => {{
+                let pick: u8 = kani::any();
+                kani::assume(pick < if WITH_E { 5 } else { 4 });
+                crate::vdump!("pick {}", pick);
+                let bits: u8 = if pick == 4 { 6 } else { 1 << pick };
                 let low = bits & bits.wrapping_neg();
                 ooo = ooo || (mask & (low - 1)) != low - 1;
                 overlap = overlap || (mask & bits != 0 && mask & bits != bits);
-                late_total = late_total || ($step != 3 && mask & 8 != 0);
+                late_total = late_total || (pick != 3 && mask & 8 != 0);
                 mask |= bits;
                 over = over || runs4(mask) > ASSEMBLER_MAX_SEGMENT_COUNT;
-                let res = match $step {
-                    0 => offer(&mut set, key, exp, &g[0..8], 0, true),
-                    1 => offer(&mut set, key, exp, &g[8..16], 8, true),
-                    2 => offer(&mut set, key, exp, &g[16..24], 16, true),
-                    3 => offer(&mut set, key, exp, &g[24..T], 24, false),
-                    _ => offer(&mut set, key, exp, &g[8..24], 8, true),
+                let res = if WITH_E && pick == 4 {
+                    offer(&mut set, key, exp, &g[8..24], 8, true)
+                } else if T != 32 && pick == 3 {
+                    offer(&mut set, key, exp, &g[24..T], 24, false)
+                } else {
+                    let off = pick as usize * 8;
+                    offer(&mut set, key, exp, &g[off..][..8], off, pick != 3)
                 };
                 match res {
                     Some(p) => {
@@ -96,30 +97,43 @@ mod v_iface_frag {
                     let used = set.assemblers[0].key.is_some() as usize + set.assemblers[1].key.is_some() as usize;
                     assert!(used == (mask != 0) as usize, "prop:c12_reasm_slot_held_exactly_while_incomplete");
                 }
-            )+
-            kani::cover!(delivered == 1 && ooo, "datagram delivered after out-of-order arrival");
+            }};
+        }
+        step!();
+        step!();
+        step!();
+        step!();
+        step!();
+        kani::cover!(delivered == 1 && ooo, "datagram delivered after out-of-order arrival");
+        kani::cover!(delivered == 1 && late_total, "last fragment arrived before an earlier one");
+        kani::cover!(delivered == 0 && mask == 13, "one block missing: nothing delivered");
+        if WITH_E {
             kani::cover!(delivered == 1 && overlap, "datagram delivered with an overlapping retransmission");
-            kani::cover!(delivered == 1 && late_total, "last fragment arrived before an earlier one");
-            kani::cover!(delivered == 0 && mask == 13, "one block missing: nothing delivered");
-        }};
+        }
     }
 
-    // @harness props=C12 cfg=KI4 tier=q to=1200 mem=8 unwind=12 opts=nomem,fs300 covers=4 funcs=PacketAssemblerSet::get;PacketAssembler::set_total_size;PacketAssembler::add;PacketAssembler::assemble;PacketAssembler::is_complete;Assembler::add bounds=datagram_of_32_bytes_in_4_fragments_of_8_plus_one_overlapping_16-byte_retransmission;_5_symbolic_picks_(every_order_and_duplication);_symbolic_bytes_and_key;_no_expiry
+    // @harness props=C12 cfg=KI4 tier=q to=900 mem=8 unwind=12 opts=nomem covers=3 funcs=PacketAssemblerSet::get;PacketAssembler::set_total_size;PacketAssembler::add;PacketAssembler::assemble;PacketAssembler::is_complete;Assembler::add bounds=datagram_of_32_bytes_in_4_fragments_of_8;_5_symbolic_picks_(every_order_and_duplication);_symbolic_bytes_and_key;_no_expiry
     #[kani::proof]
     pub(crate) fn ipv4_reasm_any_order_32() {
-        any_order!(32, a, b, c, d, e);
+        any_order::<32, false>();
     }
 
-    // @harness props=C12 cfg=KI4 tier=q to=1200 mem=8 unwind=12 opts=nomem,fs300 covers=4 funcs=PacketAssemblerSet::get;PacketAssembler::set_total_size;PacketAssembler::add;PacketAssembler::assemble;PacketAssembler::is_complete;Assembler::add bounds=datagram_of_25_bytes_(last_fragment_1_byte)_in_4_fragments_plus_one_overlapping_retransmission;_5_symbolic_picks;_symbolic_bytes_and_key;_no_expiry
+    // @harness props=C12 cfg=KI4 tier=q to=900 mem=8 unwind=12 opts=nomem covers=3 funcs=PacketAssemblerSet::get;PacketAssembler::set_total_size;PacketAssembler::add;PacketAssembler::assemble;PacketAssembler::is_complete;Assembler::add bounds=datagram_of_25_bytes_(last_fragment_1_byte)_in_4_fragments;_5_symbolic_picks;_symbolic_bytes_and_key;_no_expiry
     #[kani::proof]
     pub(crate) fn ipv4_reasm_any_order_25() {
-        any_order!(25, a, b, c, d, e);
+        any_order::<25, false>();
+    }
+
+    // @harness props=C12 cfg=KI4 tier=q to=900 mem=8 unwind=12 opts=nomem covers=4 funcs=PacketAssemblerSet::get;PacketAssembler::set_total_size;PacketAssembler::add;PacketAssembler::assemble;PacketAssembler::is_complete;Assembler::add bounds=datagram_of_32_bytes_in_4_fragments_of_8_plus_one_overlapping_16-byte_retransmission_[8,24);_5_symbolic_picks;_symbolic_bytes_and_key;_no_expiry
+    #[kani::proof]
+    pub(crate) fn ipv4_reasm_overlap_32() {
+        any_order::<32, true>();
     }
 
     // ------------------------------------------------------------------ two datagrams interleaved
     // GA (key ka) and GB (key kb != ka), 16 bytes each in two fragments; 5 symbolic picks among the four
     // fragments: each datagram comes out with its own bytes only.
-    // @harness props=C12 cfg=KI4 tier=q to=1200 mem=8 unwind=12 opts=nomem,fs300 covers=2 funcs=PacketAssemblerSet::get;PacketAssembler::set_total_size;PacketAssembler::add;PacketAssembler::assemble bounds=two_datagrams_of_16_bytes_in_2_fragments_each;_distinct_symbolic_keys;_5_symbolic_picks;_2_reassembly_slots
+    // @harness props=C12 cfg=KI4 tier=q to=900 mem=8 unwind=12 opts=nomem covers=2 funcs=PacketAssemblerSet::get;PacketAssembler::set_total_size;PacketAssembler::add;PacketAssembler::assemble bounds=two_datagrams_of_16_bytes_in_2_fragments_each;_distinct_symbolic_keys;_5_symbolic_picks;_2_reassembly_slots
     #[kani::proof]
     pub(crate) fn ipv4_reasm_two_datagrams() {
         let ga: [u8; 16] = kani::any();
@@ -142,12 +156,9 @@ mod v_iface_frag {
                 let is_a = pick < 2;
                 inter = inter || (is_a && mb != 0) || (!is_a && ma != 0);
                 if is_a { ma |= 1 << pick; } else { mb |= 1 << (pick - 2); }
-                let res = match pick {
-                    0 => offer(&mut set, ka, exp, &ga[0..8], 0, true),
-                    1 => offer(&mut set, ka, exp, &ga[8..16], 8, false),
-                    2 => offer(&mut set, kb, exp, &gb[0..8], 0, true),
-                    _ => offer(&mut set, kb, exp, &gb[8..16], 8, false),
-                };
+                let off = (pick & 1) as usize * 8;
+                let src: &[u8; 16] = if is_a { &ga } else { &gb };
+                let res = offer(&mut set, if is_a { ka } else { kb }, exp, &src[off..][..8], off, off == 0);
                 match res {
                     Some(p) => {
                         assert!(p.len() == 16, "prop:c12_reasm_delivered_length_exact");
@@ -187,7 +198,7 @@ mod v_iface_frag {
         a.total_size.is_none() && a.assembler.is_empty()
     }
 
-    // @harness props=C12 cfg=KI4 tier=q to=900 mem=6 unwind=12 opts=nomem,fs300 covers=3 funcs=PacketAssemblerSet::get;PacketAssemblerSet::remove_expired;PacketAssembler::reset bounds=2_reassembly_slots_(REASSEMBLY_BUFFER_COUNT=2);_4_symbolic_keys;_symbolic_expiry_instants_and_clock;_one_marker_byte_per_slot
+    // @harness props=C12 cfg=KI4 tier=q to=900 mem=6 unwind=12 opts=nomem covers=3 funcs=PacketAssemblerSet::get;PacketAssemblerSet::remove_expired;PacketAssembler::reset bounds=2_reassembly_slots_(REASSEMBLY_BUFFER_COUNT=2);_4_symbolic_keys;_symbolic_expiry_instants_and_clock;_one_marker_byte_per_slot
     #[kani::proof]
     pub(crate) fn ipv4_reasm_set_slots() {
         assert!(crate::config::REASSEMBLY_BUFFER_COUNT == 2);
@@ -289,7 +300,7 @@ mod v_iface_frag {
     }
 
     // ------------------------------------------------------------------ out-of-range fragments
-    // @harness props=C12,C03 cfg=KI4 tier=q to=900 mem=6 unwind=12 opts=nomem covers=3 funcs=PacketAssembler::add;PacketAssembler::set_total_size;PacketAssembler::assemble bounds=one_fragment_already_stored_at_[8,16);_then_any_offset_(multiple_of_8_up_to_65528),_any_length_<=_16,_any_total_size_<=_70000;_256-byte_reassembly_buffer
+    // @harness props=C12,C03 cfg=KI4 tier=q to=900 mem=6 unwind=12 opts=nomem covers=3 funcs=PacketAssembler::add;PacketAssembler::set_total_size;PacketAssembler::assemble bounds=one_fragment_already_stored_at_[8,16);_then_a_fragment_at_any_offset_(multiple_of_8_up_to_65528)_of_length_0/1/8/16,_last_or_not;_256-byte_reassembly_buffer
     #[kani::proof]
     pub(crate) fn ipv4_reasm_bounds() {
         assert!(crate::config::REASSEMBLY_BUFFER_SIZE == 256);
@@ -300,7 +311,8 @@ mod v_iface_frag {
         let off8: u16 = kani::any();
         kani::assume(off8 < 8192);
         let off = off8 as usize * 8;
-        let len = any_le(16);
+        let sel: u8 = kani::any();
+        let len: usize = match sel { 0 => 0, 1 => 1, 2 => 8, _ => 16 };
         let data: [u8; 16] = kani::any();
         let last: bool = kani::any();
         let size = off + len;
@@ -315,7 +327,13 @@ mod v_iface_frag {
             assert!(ts.is_err() == (size > 256), "prop:c12_reasm_total_size_beyond_buffer_rejected");
         }
         if ts.is_ok() {
-            let r = pa.add(&data[..len], off);
+            // (one call site per length: copies of concrete size)
+            let r = match sel {
+                0 => pa.add(&data[..0], off),
+                1 => pa.add(&data[..1], off),
+                2 => pa.add(&data[..8], off),
+                _ => pa.add(&data[..16], off),
+            };
             assert!(r.is_err() == (off + len > 256), "prop:c12_reasm_fragment_beyond_buffer_rejected");
             if r.is_ok() {
                 accepted = true;
@@ -344,7 +362,7 @@ mod v_iface_frag {
             assert!(pa.assembler == pre_asm && pa.buffer[j] == pre_byte && pa.total_size.is_none(), "prop:c12_reasm_rejected_fragment_changes_nothing");
         }
         kani::cover!(!accepted && off > 256, "fragment far beyond the buffer rejected");
-        kani::cover!(accepted && off + len == 256, "fragment ending exactly at the buffer end accepted");
+        kani::cover!(accepted && len == 16 && off + len == 256, "fragment ending exactly at the buffer end accepted");
         kani::cover!(out_len == Some(16), "datagram completed by the symbolic fragment");
     }
 
@@ -365,7 +383,7 @@ mod v_iface_frag {
         kani::cover!(ka != kb && a[4] == b[4] && a[5] == b[5] && a[9] != b[9], "same ident, different protocol");
     }
 
-    // @harness props=C12 kind=mustfail cfg=KI4 tier=q to=600 mem=6 unwind=12 opts=nomem,fs300
+    // @harness props=C12 kind=mustfail cfg=KI4 tier=q to=600 mem=6 unwind=12 opts=nomem
     #[kani::proof]
     pub(crate) fn ipv4_reasm_must_fail() {
         let g: [u8; 16] = kani::any();
